@@ -4,8 +4,11 @@ From BQ Require Import qasm.QRegs.
 From BQ Require Import qasm.QGate.
 From BQ Require Import qasm.QSym.
 From BQ Require Import qasm.QEnc.
+From BQ Require Import qasm.QProg.
+From BQ Require Import qasm.QProgSym.
 From Coq Require Extraction ExtrOcamlBasic.
 Extraction "qasm_model.ml" m_flat m_ok m_eval m_denote m_naive m_simple m_has m_bind m_subst_flat
   m_denote_env m_bind_eval
   convert_qubit_ids_to_indices first_index indices cxgate ugate reset_locs measure_keys
-  body_formals.
+  body_formals
+  p_toks p_toks_v p_def_toks p_rt p_rt_v p_ok p_expect p_shape.
